@@ -5,6 +5,71 @@ import (
 	"sync/atomic"
 )
 
+// alignedUnions returns every non-empty union of at most maxParts pairwise disjoint aligned blocks
+// of slots [a, a+2^h) (a multiple of 2^h, inside one tree of an N-leaf forest; h = 0 gives single
+// leaves), each as a sorted slot list, without duplicates.
+func alignedUnions(N, maxParts int) [][]int {
+	type blk struct{ a, n int }
+	var blocks []blk
+	// trees of N
+	a := 0
+	for h := 30; h >= 0; h-- {
+		if N&(1<<uint(h)) == 0 {
+			continue
+		}
+		for hh := 0; hh <= h; hh++ {
+			for b := a; b+(1<<uint(hh)) <= a+(1<<uint(h)); b += 1 << uint(hh) {
+				blocks = append(blocks, blk{b, 1 << uint(hh)})
+			}
+		}
+		a += 1 << uint(h)
+	}
+	seen := map[string]bool{}
+	var out [][]int
+	var rec func(start int, cur []blk)
+	rec = func(start int, cur []blk) {
+		if len(cur) > 0 {
+			var x []int
+			for _, b := range cur {
+				for i := b.a; i < b.a+b.n; i++ {
+					x = append(x, i)
+				}
+			}
+			sortInts(x)
+			k := fmt.Sprint(x)
+			if !seen[k] {
+				seen[k] = true
+				out = append(out, x)
+			}
+		}
+		if len(cur) == maxParts {
+			return
+		}
+		for i := start; i < len(blocks); i++ {
+			ok := true
+			for _, b := range cur {
+				if blocks[i].a < b.a+b.n && b.a < blocks[i].a+blocks[i].n {
+					ok = false
+					break
+				}
+			}
+			if ok {
+				rec(i+1, append(cur, blocks[i]))
+			}
+		}
+	}
+	rec(0, nil)
+	return out
+}
+
+func sortInts(x []int) {
+	for i := 1; i < len(x); i++ {
+		for j := i; j > 0 && x[j] < x[j-1]; j-- {
+			x[j], x[j-1] = x[j-1], x[j]
+		}
+	}
+}
+
 // tallFamily: forests of 16..65 leaves (rows 4..7, positions > 127), where the unstructured BFS
 // cannot go. N leaves are added in one block, then one block deletes a set from a closed
 // structured family and adds k in {0,1,3} leaves, then that block is undone. Exhaustive over the
@@ -194,6 +259,20 @@ func tallFamily(c *Ctx, prop string) {
 		}
 	}
 	vtRuns := len(runs) - vtStart
+	// aligned-union family: every union of up to three disjoint aligned blocks (whole subtrees and
+	// single leaves mixed) deleted in one block, then k additions
+	auNs := []int{11, 12}
+	if c.Thorough() {
+		auNs = []int{11, 12, 13, 16, 20}
+	}
+	for _, N := range auNs {
+		for _, S := range alignedUnions(N, 3) {
+			for _, k := range []int{0, 1} {
+				runs = append(runs, run{[]Op{{Kind: "block", Adds: N}, {Kind: "block", Dels: S, Adds: k}}})
+			}
+		}
+	}
+	c.Cov.Bound["aligned_unions.N"] = fmt.Sprint(auNs)
 	c.Cov.Bound["very_tall.N"] = fmt.Sprint(vtNs)
 	c.Cov.Bound["very_tall.runs"] = vtRuns
 	c.Cov.Bound["medium.N"] = fmt.Sprint(medNs)
